@@ -11,8 +11,9 @@ CFG = {
                           "RpmVerif.C04.iterator_no_runaway", "RpmVerif.C04.collectMem_total",
                           "RpmVerif.C04.reserve_arg_reading", "RpmVerif.C04.buf_grows_with_input", "RpmVerif.C04.size_rest_is_model", "RpmVerif.C04.reserve_le_remaining",
                           "RpmVerif.C04.decode_reserve_le", "RpmVerif.C04.reserved_le_input", "RpmVerif.C04.acct_of_accepted", "RpmVerif.C04.decode_kept_le",
-                          "RpmVerif.C04.kept_le_quadratic", "RpmVerif.C04.live_le", "RpmVerif.C04.package_requests_le_input", "RpmVerif.C04.overlap_accepted",
-                          "RpmVerif.C04.linear_bound_refuted", "RpmVerif.C04.harness_limit_refuted"],
+                          "RpmVerif.C04.decode_kept_le_used", "RpmVerif.C04.kept_le_quadratic", "RpmVerif.C04.kept_le_linear", "RpmVerif.C04.accepted_kept_le_linear",
+                          "RpmVerif.C04.live_le", "RpmVerif.C04.package_requests_le_input", "RpmVerif.C04.overlap_refused", "RpmVerif.C04.overlap_one_accepted",
+                          "RpmVerif.C04.fromEntries_within_budget", "RpmVerif.C04.harness_limit_holds", "RpmVerif.C04.overlap_old_decoder_accepted"],
     "trivial_branches": [],
     "rule": "every case runs the whole read side (Package::parse, PackageMetadata::parse, all 40 accessors, the Display / Debug impls of Header, IndexEntry, IndexData, Lead and PackageMetadata on the parsed values (stage fmt, into a discarding sink), verify_digests, verify_signature with a "
             "rejecting verifier, signature_key_ids, files() iteration on uncompressed payloads) in a forked child with a panic hook, RLIMIT_AS = 3 GiB, "
@@ -35,7 +36,8 @@ CFG = {
             "PackageMetadata::open — predicted by Io.parseChunked / Io.parseMetadataC under the corresponding chunk scripts; a source kind accepting what another rejects fails (source-kinds-differ). "
             "Op alloc04 (packages of 10^3..10^6 bytes built from seven numbers on both sides): counts 2^12 / 2^16 (thorough: 2^20) on every entry type over stores that are "
             "empty / short / one element short / exactly long enough, 2^16 empty strings, 4096 index entries, and the OVERLAP family (N entries pointing at the same S store bytes, "
-            "BIN / INT32 / STRING_ARRAY, in either header) up to N x S = 4 MiB from 16.5 KB. "
+            "BIN / INT32 / STRING_ARRAY, in either header; up to N x S = 4 MiB from 16.5 KB before parse_header had its byte budget — now refused, parse=err on both sides, "
+            "and beyond the limits again if the budget check is lost). "
             "Non-trivial: all; distinct = distinct request lines.",
     "exhaustive": False,
     "shards": {"quick": 8, "thorough": 16},
@@ -51,7 +53,7 @@ CFG = {
                   "explicit panic and proves it unreachable, incl. Lead::parse's unwrap), decoding never panics for any type/offset/count, every accepted entry's "
                   "count is bounded by the store length and index + store fit inside the input, and no accessor (incl. the unreachable!() arms of the list "
                   "accessors and get_file_entries) can panic. The tie and the parts outside the model (dependencies, allocator behaviour, cpio reader, signature "
-                  "code) are exercised by running the real read side on hostile inputs in a child process. Signature blobs: the OpenPGP packets handed to the pgp crate's parser are a partition of the blob, so no declared length exceeds it (split_partition, split_bounded, for every blob; the 104 MB witness of the old code is split_witness); each packet's own header declares exactly the packet's length (split_declared); for ANY packet parser, every byte string parse_signature hands to it is a non-empty contiguous slice of the blob whose declared length is its real length <= the blob (parser_sees_only_slices), all calls together are at most the blob (parser_alloc_bound), the calls are a prefix of the packet list ending at the first signature (parser_calls_prefix, parser_calls_faithful), and the result depends on the parser only through its answers on such slices (parse_depends_on_slices); model tied through the guarded hook pgp_split_packets and, for the first-signature rule, C02's sigpkts correspondence. The correspondence also drains files() past errors (iterator must end). Memory as statements (Props/C04Alloc.lean, Header::parse as an allocation account that also covers REJECTED inputs; the argument of reserve_exact and the initial capacity of the read buffer are scraped from header.rs, tools/gen/alloc_sites.py): reserve_arg_reading (the argument is min(count, bytes left), no overflow in the widths of the code), buf_grows_with_input (Vec::new + take(size_rest).read_to_end), reserved_le_input (EVERY byte string: nothing sized up front, buffer <= input, every reservation <= 8 bytes per store byte, at most one per entry, largest single request <= 8 x input), package_requests_le_input (the same for both headers of Package::parse), acct_of_accepted, decode_kept_le (<= 24 bytes kept per store byte per entry), kept_le_quadratic / live_le (kept data <= 24 x entries x store). A LINEAR bound on the kept data is FALSE of the current code and proved so: overlap_accepted (N entries over the same S store bytes are accepted and keep N x S bytes), linear_bound_refuted (every K < 2^26), harness_limit_refuted (the instance replayed on the real code: 16.5 KB in, 4 MiB kept; verdict class alloc-kept-quadratic). No runaway is now a theorem: iterator_no_runaway — for EVERY behaviour of the payload stream (any decompressor state, any position after an error) a files() iterator over n header files hands out at most n items, collect() ends within n + 1 calls and the iterator is fused from then on (FileIterator::next as a state machine, Model/FileIter.lean); collectMem_total: the items after an error are values or errors too. The drained iteration of uncompressed payloads is predicted exactly (iter=<items>:<Ok/Err classes>:<hash>) from the accessor model's file list and the in-memory stream positions every error path leaves.",
+                  "code) are exercised by running the real read side on hostile inputs in a child process. Signature blobs: the OpenPGP packets handed to the pgp crate's parser are a partition of the blob, so no declared length exceeds it (split_partition, split_bounded, for every blob; the 104 MB witness of the old code is split_witness); each packet's own header declares exactly the packet's length (split_declared); for ANY packet parser, every byte string parse_signature hands to it is a non-empty contiguous slice of the blob whose declared length is its real length <= the blob (parser_sees_only_slices), all calls together are at most the blob (parser_alloc_bound), the calls are a prefix of the packet list ending at the first signature (parser_calls_prefix, parser_calls_faithful), and the result depends on the parser only through its answers on such slices (parse_depends_on_slices); model tied through the guarded hook pgp_split_packets and, for the first-signature rule, C02's sigpkts correspondence. The correspondence also drains files() past errors (iterator must end). Memory as statements (Props/C04Alloc.lean, Header::parse as an allocation account that also covers REJECTED inputs; the argument of reserve_exact and the initial capacity of the read buffer are scraped from header.rs, tools/gen/alloc_sites.py): reserve_arg_reading (the argument is min(count, bytes left), no overflow in the widths of the code), buf_grows_with_input (Vec::new + take(size_rest).read_to_end), reserved_le_input (EVERY byte string: nothing sized up front, buffer <= input, every reservation <= 8 bytes per store byte, at most one per entry, largest single request <= 8 x input), package_requests_le_input (the same for both headers of Package::parse), acct_of_accepted, decode_kept_le (<= 24 bytes kept per store byte per entry), decode_kept_le_used (what an entry keeps <= 24 x the store bytes parse_header CHARGES it against its budget of the data section's length), kept_le_linear (EVERY byte string, accepted or rejected half way: decoded data alive at the end of parse_header <= 48 x data section <= 48 x input), accepted_kept_le_linear (an accepted header keeps <= 24 bytes per byte of its data section), live_le (everything alive at the end of parse_header <= 61 x input, inside the limit of Spec/Alloc.lean), harness_limit_holds (the limit the differential run applies holds of every accepted header), kept_le_quadratic (the older 24 x entries x store bound, sharper for one or two entries). Overlapping entries: overlap_refused (N >= 2 entries over the same S >= 1 store bytes are rejected, class overlap; the instance replayed on the real code is alloc04 h 512 8192 7 0 8192 0), overlap_one_accepted (the budget is tight: the single entry is accepted), Hdr.parseHeader_write_overlap (ANY header whose entries are charged more than its data section is refused), fromEntries_within_budget (headers written by from_entries never are: the builder lays data out without overlap, and what Header::write emits for them parses back), overlap_old_decoder_accepted (a copy of the loop before the fix accepts the family and keeps N x S bytes — what the budget is for). No runaway is now a theorem: iterator_no_runaway — for EVERY behaviour of the payload stream (any decompressor state, any position after an error) a files() iterator over n header files hands out at most n items, collect() ends within n + 1 calls and the iterator is fused from then on (FileIterator::next as a state machine, Model/FileIter.lean); collectMem_total: the items after an error are values or errors too. The drained iteration of uncompressed payloads is predicted exactly (iter=<items>:<Ok/Err classes>:<hash>) from the accessor model's file list and the in-memory stream positions every error path leaves.",
     "level_note": "Trusted: Lean kernel; model fidelity as exercised (parse ok/err class compared on every case); verify_digests / verify_signature / cpio totality "
                   "are proved in C03 / C02 / C07's models; dependencies are exercised only.",
 }
